@@ -1,7 +1,7 @@
 #!/bin/bash
 # dev aid: apply every mutants/<ID>-*.patch (reverse of a fix) to /repo in turn, run the owning quick check, expect exit 1
 # usage: tools_mutants.sh [ID-prefix]
-cd /verif
+cd "$(dirname "$0")"
 for p in mutants/${1:-C}*.patch; do
   id=$(basename $p | cut -d- -f1)
   git -C /repo checkout -q -- . ; if ! git -C /repo apply $PWD/$p 2>/dev/null; then echo "$p: does not apply"; continue; fi
